@@ -37,11 +37,13 @@ func zzEstablished(e *dtlshandshake.Establishment) bool { return true }
 
 type zzTxSuite struct{ encrypts int }
 
-func (s *zzTxSuite) String() string                               { return "zzTx" }
-func (s *zzTxSuite) ID() CipherSuiteID                            { return TLS_ECDHE_ECDSA_WITH_AES_128_GCM_SHA256 }
-func (s *zzTxSuite) CertificateType() clientcertificate.Type      { return clientcertificate.ECDSASign }
-func (s *zzTxSuite) HashFunc() func() hash.Hash                   { return nil }
-func (s *zzTxSuite) AuthenticationType() types.AuthenticationType { return types.AuthenticationTypeCertificate }
+func (s *zzTxSuite) String() string                          { return "zzTx" }
+func (s *zzTxSuite) ID() CipherSuiteID                       { return TLS_ECDHE_ECDSA_WITH_AES_128_GCM_SHA256 }
+func (s *zzTxSuite) CertificateType() clientcertificate.Type { return clientcertificate.ECDSASign }
+func (s *zzTxSuite) HashFunc() func() hash.Hash              { return nil }
+func (s *zzTxSuite) AuthenticationType() types.AuthenticationType {
+	return types.AuthenticationTypeCertificate
+}
 func (s *zzTxSuite) KeyExchangeAlgorithm() types.KeyExchangeAlgorithm {
 	return types.KeyExchangeAlgorithmEcdhe
 }
@@ -60,6 +62,7 @@ type zzTxProt13 struct {
 	seals    int
 	lastType protocol.ContentType
 	lastSeq  uint64
+	openOK   bool // verdict of Open (receive side, used by switch.go)
 }
 
 func (p *zzTxProt13) Seal(h recordlayer.UnifiedHeader, seq uint64, ct protocol.ContentType, pt []byte) (recordlayer.CiphertextRecord13, error) {
@@ -71,8 +74,17 @@ func (p *zzTxProt13) Seal(h recordlayer.UnifiedHeader, seq uint64, ct protocol.C
 	}
 	return recordlayer.CiphertextRecord13{Header: h, EncryptedRecord: enc}, nil
 }
+
+// Open is the inverse of Seal when the verdict flag is set: content || type || zeros.
 func (p *zzTxProt13) Open(h recordlayer.UnifiedHeader, seq uint64, enc []byte) (recordlayer.InnerPlaintext, error) {
-	return recordlayer.InnerPlaintext{}, io.ErrUnexpectedEOF
+	if !p.openOK {
+		return recordlayer.InnerPlaintext{}, io.ErrUnexpectedEOF
+	}
+	var ip recordlayer.InnerPlaintext
+	if err := ip.Unmarshal(enc); err != nil {
+		return recordlayer.InnerPlaintext{}, err
+	}
+	return ip, nil
 }
 func (p *zzTxProt13) UnmaskSequenceNumber(h recordlayer.UnifiedHeader, enc []byte) (recordlayer.UnifiedHeader, error) {
 	return h, nil
